@@ -345,6 +345,44 @@ func c07Prufer(N int) {
 func H_c07_prufer_q() { c07Prufer(5) }
 func H_c07_prufer_t() { c07Prufer(6) }
 
+// c07PruferCodes: code -> tree -> code for every code in [0,n)^(n-2), n in lo..hi.
+// Encode(Decode(p)) == p for all n^(n-2) codes makes Decode injective into the labelled
+// trees, of which there are n^(n-2) (Cayley), so it also gives Decode(Encode(t)) == t.
+func c07PruferCodes(lo, hi int) {
+	n := lo + rt.Choice("n", hi-lo+1)
+	p := make([]int, n-2)
+	for i := range p {
+		p[i] = rt.Choice("p", n)
+	}
+	t := PruferDecode(append([]int{}, p...))
+	adj := vgAdjOf(t)
+	rt.Check(t.N() == n, "PruferDecode: wrong order")
+	rt.Check(c07IsTree(adj), "PruferDecode: result is not a tree")
+	var q []int
+	pn, msg := rt.Panics(func() { q = PruferEncode(t) })
+	rt.Check(!pn, "PruferEncode panics on PruferDecode output: "+msg)
+	if pn {
+		return
+	}
+	rt.Check(len(q) == len(p), "PruferEncode(PruferDecode(p)) has the wrong length")
+	if len(q) == len(p) {
+		for i := range p {
+			rt.Check(q[i] == p[i], "PruferEncode(PruferDecode(p)) != p")
+		}
+	}
+	sc := PruferEncode(vgSparse(adj))
+	rt.Check(len(sc) == len(q), "PruferEncode differs between representations")
+	for i := range q {
+		if i < len(sc) {
+			rt.Check(sc[i] == q[i], "PruferEncode differs between representations")
+		}
+	}
+	rt.Reach("end")
+}
+
+func H_c07_prufercodes_q() { c07PruferCodes(6, 7) }
+func H_c07_prufercodes_t() { c07PruferCodes(8, 8) }
+
 // c07MulticodeBig: Multicode at orders where the 1-based byte labels get large
 // (n up to 255), edges among 3 symbolic-positioned vertices.
 func H_c07_multicodebig() {
